@@ -379,8 +379,14 @@ func (c *Ctx) Finish() int {
 		missing = append(missing, fmt.Sprintf("evaluations=%d distinct=%d", c.evals, len(c.distinct)+len(c.distinctH)))
 	}
 	if len(missing) > 0 && code == 0 && !c.ReplayMode {
-		fmt.Printf("MONITOR-SAW-TOO-LITTLE property=%s %v\n", c.Prop, missing)
-		code = 2
+		if os.Getenv("VERIF_MORE_STAGES") != "" {
+			// another stage of the same tier follows and adds its observations before this is judged
+			fmt.Printf("below the minimum observation so far (judged after the last stage): %v\n", missing)
+			c.extra["below_minimum_observation_before_last_stage"] = missing
+		} else {
+			fmt.Printf("MONITOR-SAW-TOO-LITTLE property=%s %v\n", c.Prop, missing)
+			code = 2
+		}
 	}
 	if len(c.samples) == 0 {
 		c.samples = append(c.samples, "no sample recorded")
